@@ -6,6 +6,8 @@ CLAIMED={
  'C01':('exploration','callback/store monitor over adversarial inbound histories on the real engine'),
  'C04':('exploration','recovery model built from the stub peer\'s own actions; ResendRequest rules + end-to-end delivery'),
  'C06':('exploration','defects planted in flight by the stub peer in every logged-on state; non-delivery + reaction-for-one-of-the-defects oracle'),
+ 'C07':('exploration','continuity/reset oracle over reconnect histories for every reset-option combination, three stores'),
+ 'C08':('exploration','per-connection envelope monitor (wire recorded at write time, callbacks, close) under the adversarial workload with timers, cuts and Stop'),
  'C20':('exploration','timing oracle on the real run loop with real timers on simulated time'),
 }
 extra=json.load(open('/verif/claimed.json')) if False else {}
